@@ -2,6 +2,8 @@
 # all_seeds.sh : for every seeded change, apply it to /repo, run the quick check of the property it
 # breaks, expect a VIOLATION, undo.  Prints one line per seed.  (Development aid; not a registered check.)
 cd /repo && git status --short | grep -q . && { echo "/repo not clean"; exit 2; }
+# runs against a changed tree must not leave their evidence behind
+KEEP=$(mktemp -d /tmp/evidence.keep.XXXXXX); cp -a /verif/evidence/. "$KEEP"/
 for d in /verif/seeded/*/; do
   name=$(basename $d); id=${name%%-*}
   P=$d/patch.diff; [ -f $d/patch_ported.diff ] && P=$d/patch_ported.diff
@@ -13,3 +15,4 @@ for d in /verif/seeded/*/; do
   echo "$name: $out"
 done
 cd /repo && git status --short
+rm -rf /verif/evidence; mkdir -p /verif/evidence; cp -a "$KEEP"/. /verif/evidence/; rm -rf "$KEEP"
